@@ -99,6 +99,8 @@ def script_text(spec: Spec, variant: int, dofile: str, gates: bool = False) -> s
                 continue
             if act == "set":
                 L.append(': > "$RV_FLAGS/%s"; vgate n "set:%s $1"' % (flag, flag))
+            elif act == "sleep":
+                L.append('vgate p "sleep:%s $1"' % flag)   # a long piece of work: outlasts that many timer expiries
             else:
                 L.append('vgate p "wait:%s $1"' % flag)   # still "working": a slow job keeps its token
     sync("start")
